@@ -299,3 +299,76 @@ pub proof fn lemma_mount_split(a: Seq<RecV>, b: Seq<RecV>, d: DMap)
         assert((a + b).last() == b.last());
     }
 }
+
+// ---- a batch of span collections processed into one danglings map, then mounted
+pub open spec fn sc_set(c: SpanCollection) -> SpanSet {
+    match c {
+        SpanCollection::Owned { spans, trace_id, parent_id } => spans,
+        SpanCollection::Shared { spans, trace_id, parent_id } => *spans,
+    }
+}
+
+pub open spec fn sc_trace(c: SpanCollection) -> TraceId {
+    match c {
+        SpanCollection::Owned { spans, trace_id, parent_id } => trace_id,
+        SpanCollection::Shared { spans, trace_id, parent_id } => trace_id,
+    }
+}
+
+pub open spec fn sc_parent(c: SpanCollection) -> SpanId {
+    match c {
+        SpanCollection::Owned { spans, trace_id, parent_id } => parent_id,
+        SpanCollection::Shared { spans, trace_id, parent_id } => parent_id,
+    }
+}
+
+pub open spec fn set_recs(set: SpanSet, trace_id: TraceId, parent_id: SpanId, anchor: Anchor) -> Seq<RecV> {
+    match set {
+        SpanSet::Span(raw) => amend_span_recs(raw, trace_id, parent_id, anchor),
+        SpanSet::LocalSpansInner(ls) => amend_local_recs(ls.spans@, ls.end_time, trace_id, parent_id, anchor),
+        SpanSet::SharedLocalSpans(ls) => amend_local_recs(ls.spans@, ls.end_time, trace_id, parent_id, anchor),
+    }
+}
+
+pub open spec fn set_dm(set: SpanSet, parent_id: SpanId, d: DMap, anchor: Anchor) -> DMap {
+    match set {
+        SpanSet::Span(raw) => amend_span_dm(raw, parent_id, d, anchor),
+        SpanSet::LocalSpansInner(ls) => amend_local_dm(ls.spans@, parent_id, d, anchor),
+        SpanSet::SharedLocalSpans(ls) => amend_local_dm(ls.spans@, parent_id, d, anchor),
+    }
+}
+
+pub open spec fn colls_recs(cs: Seq<SpanCollection>, anchor: Anchor) -> Seq<RecV>
+    decreases cs.len(),
+{
+    if cs.len() == 0 { Seq::empty() } else {
+        colls_recs(cs.drop_last(), anchor) + set_recs(sc_set(cs.last()), sc_trace(cs.last()), sc_parent(cs.last()), anchor)
+    }
+}
+
+pub open spec fn colls_dm(cs: Seq<SpanCollection>, d: DMap, anchor: Anchor) -> DMap
+    decreases cs.len(),
+{
+    if cs.len() == 0 { d } else {
+        set_dm(sc_set(cs.last()), sc_parent(cs.last()), colls_dm(cs.drop_last(), d, anchor), anchor)
+    }
+}
+
+// what one postprocess call appends to the output / leaves parked
+pub open spec fn post_recs(cs: Seq<SpanCollection>, d: DMap, anchor: Anchor) -> Seq<RecV> {
+    mount_recs(colls_recs(cs, anchor), colls_dm(cs, d, anchor))
+}
+
+pub open spec fn post_dm(cs: Seq<SpanCollection>, d: DMap, anchor: Anchor) -> DMap {
+    mount_dm(colls_recs(cs, anchor), colls_dm(cs, d, anchor))
+}
+
+// R4: `&mut V[from..]` -- the tail of a vector as a mutable slice (vstd has no contract for it)
+#[verifier::external_body]
+pub fn vec_tail_mut<T>(v: &mut Vec<T>, from: usize) -> (r: &mut [T])
+    requires from <= old(v)@.len(),
+    ensures
+        r@ == old(v)@.skip(from as int),
+        final(r)@.len() == r@.len(),
+        final(v)@ == old(v)@.take(from as int) + final(r)@,
+{ &mut v[from..] }
